@@ -19,6 +19,7 @@ import (
 	"sort"
 	"strings"
 	"sync"
+	"syscall"
 	"time"
 
 	"sxverif/harness/internal/hx"
@@ -281,9 +282,9 @@ func e2eRateComponent(r *hx.Run) {
 	if terr == nil {
 		defer tun.close()
 	}
-	extra := []string{"chunks", "tun"}
+	extra := []string{"chunks", "tun", "lo"}
 	if r.Tier == "thorough" {
-		extra = []string{"chunks", "tun", "chunks", "tun", "tun", "chunks"}
+		extra = []string{"chunks", "tun", "lo", "chunks", "tun", "tun", "chunks", "lo", "lo"}
 	}
 	for xi, kind := range extra {
 		perMs := 2 + rng.Intn(3)
@@ -316,6 +317,34 @@ func e2eRateComponent(r *hx.Run) {
 			for j, f := range frames {
 				if len(f) >= 48 && f[12] == 8 && f[13] == 0 && f[23] == 6 && f[47] == 0x02 && binary.BigEndian.Uint32(f[30:34]) == target {
 					stamps = append(stamps, ts[j])
+				}
+			}
+		case "lo":
+			// a packet scan that leaves through the loopback interface (raw IP frames, like vpn mode): frames as
+			// the packet socket of the harness sees them going out of lo
+			sub := [][]string{{"tcp", "syn"}, {"udp"}, {"tcp", "fin"}}[xi%3]
+			target := uint32(127<<24) | uint32(1+rng.Intn(200))<<8 | uint32(2+rng.Intn(200))
+			p0 := 2000 + rng.Intn(50000)
+			count = 30 + rng.Intn(30)
+			args = append(append([]string{}, sub...), "--json", "--exit-delay", "30ms", "--rate", rate, "-p", fmt.Sprintf("%d-%d", p0, p0+count-1))
+			if rng.Intn(2) == 0 {
+				args = append(args, "-i", "lo")
+			}
+			args = append(args, v4Text(target))
+			name = strings.Join(sub, "_") + "_lo"
+			lc, lerr := newLoCap()
+			if lerr != nil {
+				continue
+			}
+			res = runSX(nil, 120*time.Second, args...)
+			time.Sleep(50 * time.Millisecond)
+			frames, ts := lc.finish()
+			proto := map[string]byte{"tcp": 6, "udp": 17}[sub[0]]
+			for j, f := range frames {
+				if len(f) >= 24 && f[0] == 0x45 && f[9] == proto && binary.BigEndian.Uint32(f[16:20]) == target {
+					if dp := int(binary.BigEndian.Uint16(f[22:24])); dp >= p0 && dp < p0+count && !(proto == 6 && len(f) >= 34 && f[33]&0x04 != 0) {
+						stamps = append(stamps, ts[j])
+					}
 				}
 			}
 		case "tun":
@@ -365,6 +394,78 @@ func e2eRateComponent(r *hx.Run) {
 		r.Count("rate:" + kind)
 		r.Case(name+"/"+rate, "limwire", name, fmt.Sprint(n), fmt.Sprint(int64(w)), fmt.Sprint(count), fmt.Sprint(slack), obs)
 	}
+}
+
+// loCap: what goes OUT of the loopback interface (PACKET_OUTGOING copies only: every frame on lo is seen twice), with
+// kernel timestamps
+type loCap struct {
+	fd     int
+	mu     sync.Mutex
+	frames [][]byte
+	stamps []int64
+	stop   chan struct{}
+	done   chan struct{}
+}
+
+func newLoCap() (*loCap, error) {
+	ifi, err := net.InterfaceByName("lo")
+	if err != nil {
+		return nil, err
+	}
+	fd, err := syscall.Socket(syscall.AF_PACKET, syscall.SOCK_RAW, int(htons(syscall.ETH_P_ALL)))
+	if err != nil {
+		return nil, err
+	}
+	if err := syscall.Bind(fd, &syscall.SockaddrLinklayer{Protocol: htons(syscall.ETH_P_ALL), Ifindex: ifi.Index}); err != nil {
+		syscall.Close(fd)
+		return nil, err
+	}
+	syscall.SetsockoptInt(fd, syscall.SOL_SOCKET, 33 /* SO_RCVBUFFORCE */, 64<<20)
+	syscall.SetsockoptInt(fd, syscall.SOL_SOCKET, 35 /* SO_TIMESTAMPNS */, 1)
+	tv := syscall.Timeval{Usec: 20000}
+	syscall.SetsockoptTimeval(fd, syscall.SOL_SOCKET, syscall.SO_RCVTIMEO, &tv)
+	c := &loCap{fd: fd, stop: make(chan struct{}), done: make(chan struct{})}
+	go func() {
+		defer close(c.done)
+		buf := make([]byte, 1<<16)
+		oob := make([]byte, 256)
+		for {
+			select {
+			case <-c.stop:
+				return
+			default:
+			}
+			k, oobn, _, from, err := syscall.Recvmsg(c.fd, buf, oob, 0)
+			if err != nil || k <= 0 {
+				continue
+			}
+			if ll, ok := from.(*syscall.SockaddrLinklayer); !ok || ll.Pkttype != 4 /* PACKET_OUTGOING */ {
+				continue
+			}
+			stamp := time.Now().UnixNano()
+			if msgs, err := syscall.ParseSocketControlMessage(oob[:oobn]); err == nil {
+				for _, m := range msgs {
+					if m.Header.Level == syscall.SOL_SOCKET && m.Header.Type == 35 && len(m.Data) >= 16 {
+						stamp = int64(binary.LittleEndian.Uint64(m.Data[0:8]))*1e9 + int64(binary.LittleEndian.Uint64(m.Data[8:16]))
+					}
+				}
+			}
+			f := make([]byte, k)
+			copy(f, buf[:k])
+			c.mu.Lock()
+			c.frames = append(c.frames, f)
+			c.stamps = append(c.stamps, stamp)
+			c.mu.Unlock()
+		}
+	}()
+	return c, nil
+}
+
+func (c *loCap) finish() ([][]byte, []int64) {
+	close(c.stop)
+	<-c.done
+	syscall.Close(c.fd)
+	return c.frames, c.stamps
 }
 
 // ---------------------------------------------------------------- e2edelay
